@@ -133,8 +133,15 @@ func rootOf(conns []c04conn) string {
 	return ""
 }
 
+// c04NoGen: generate flows without early-response nodes (set by runC04 for the
+// runs in which the order of a fan-out is not decided by the configuration).
+var c04NoGen bool
+
 func genC04Flow(tp *kernel.Tape, name string) *c04flow {
 	f := &c04flow{name: name, nReq: tp.Range(1, 4), nGen: tp.Range(0, 2), nResp: tp.Range(0, 3), status: map[string]int{}}
+	if c04NoGen {
+		f.nGen = 0
+	}
 	for i := 1; i <= f.nGen; i++ {
 		f.status[fmt.Sprintf("g%d", i)] = 400 + 10*i + tp.Choose(9)
 	}
@@ -264,7 +271,13 @@ func runC04(s *kernel.Sim) {
 	if refShape {
 		nFlows = 1
 	}
-	s.Knobs["flow_reference"] = refShape
+	// a third of them refer to the end of lib from two processors: after lib both run
+	// (the order of that fan-out is not given by any one connection list, so these
+	// runs have no early-response nodes and are judged on what ran, not in which order)
+	twoEntries := refShape && tp.Chance(1, 3)
+	c04NoGen = twoEntries
+	defer func() { c04NoGen = false }()
+	s.Knobs["flow_reference"], s.Knobs["referenced_flow_end_fans_out"] = refShape, twoEntries
 	var flows []*c04flow
 	files := map[string]string{}
 	var desc []string
@@ -296,6 +309,17 @@ func runC04(s *kernel.Sim) {
 		// main: the request entry is the end of lib; response ends hand over to lib
 		entry := main.req[0].to
 		main.req[0] = c04conn{fromFlow: "lib@end", to: entry}
+		entries := []string{entry}
+		if twoEntries {
+			if main.nReq < 2 {
+				main.nReq = 2
+				main.req = append(main.req, c04conn{from: "p2", cond: "hit", to: ""})
+			}
+			second := fmt.Sprintf("p%d", 2+tp.Choose(main.nReq-1))
+			entries = append(entries, second)
+			// the second reference follows the first in the connection list
+			main.req = append([]c04conn{main.req[0], {fromFlow: "lib@end", to: second}}, main.req[1:]...)
+		}
 		if rootOf(main.resp) == "" {
 			if main.nResp == 0 {
 				main.nResp = 1
@@ -337,11 +361,15 @@ func runC04(s *kernel.Sim) {
 				continue
 			}
 			if c.to == "" {
-				c.to = entry
+				for _, e := range entries {
+					c.to = e
+					comp.req = append(comp.req, c)
+				}
+				continue
 			}
 			comp.req = append(comp.req, c)
 		}
-		comp.req = append(comp.req, main.req[1:]...)
+		comp.req = append(comp.req, main.req[len(entries):]...)
 		libRespRoot := rootOf(lib.resp)
 		for _, c := range main.resp {
 			if c.toFlow != "" {
@@ -564,7 +592,11 @@ func runC04(s *kernel.Sim) {
 					w = &exp{}
 				}
 				s.Rule("R1")
-				if strings.Join(gr, ",") != strings.Join(w.req, ",") || strings.Join(gs, ",") != strings.Join(w.resp, ",") {
+				wr, ws := w.req, w.resp
+				if twoEntries { // judged on what ran
+					gr, gs, wr, ws = sortedCopy(gr), sortedCopy(gs), sortedCopy(wr), sortedCopy(ws)
+				}
+				if strings.Join(gr, ",") != strings.Join(wr, ",") || strings.Join(gs, ",") != strings.Join(ws, ",") {
 					sig := "sequence-differs-from-graph"
 					if earlyFlow != "" {
 						sig = "sequence-differs-from-graph:after-early-response"
